@@ -15,11 +15,14 @@ package main
 import (
 	"context"
 	"fmt"
+	"regexp"
 	"sort"
 	"strings"
 )
 
 type Verdict struct{ Class, Msg string }
+
+var reNotNullFailed = regexp.MustCompile(`NOT NULL constraint failed: ([^.\s]+(?: [^.\s]+)*)\.(.+?)\s*$`)
 
 // normType: the declared type as the planner writes it back (sqlite.FormatType drops the
 // size / precision arguments: varchar(255) -> varchar); "the same type" of the property is
@@ -56,10 +59,11 @@ func genSame(cur, des *Schema, tbl, col string) (same bool, dep string) {
 }
 
 type preserveStats struct {
-	surviving int
-	coalesced int // NULLs that were replaced by the default
-	rows      int
-	aliasNull int
+	surviving    int
+	coalesced    int // NULLs that were replaced by the default
+	rows         int
+	aliasNull    int
+	materialised int
 }
 
 func isRowidAlias(t *TableDump, i int) bool {
@@ -102,9 +106,36 @@ func preserved(in *oracleIn, tb, ta *TableDump, specName string, useGen bool) (v
 		}
 		ca := ta.Cols[ai]
 		if normType(ca.Type) != normType(cb.Type) {
+			// NOT NULL + DEFAULT over existing NULLs together with a type change: the values are
+			// converted (not judged), but every NULL must have become the default
+			if cb.Hidden == 0 && ca.Hidden == 0 && !cb.NotNull && ca.NotNull && ca.Dflt != "" &&
+				!strings.Contains(strings.ToUpper(ca.Dflt), "CURRENT_") && len(tb.Rows) == len(ta.Rows) {
+				if d, err := evalDefault(in.ctx, ca.Type, ca.Dflt); err == nil {
+					nb, na := 0, 0
+					for _, r := range tb.Rows {
+						if r[bi] == "NULL" {
+							nb++
+						}
+					}
+					for _, r := range ta.Rows {
+						if r[ai] == d {
+							na++
+						}
+					}
+					st.coalesced += nb
+					if na < nb {
+						vs = append(vs, Verdict{"value-changed", fmt.Sprintf("mode=%s table=%s column %s (type changed, NOT NULL DEFAULT): %d NULLs before, only %d rows hold the default %s", in.mode, tb.Name, cb.Name, nb, na, d)})
+					}
+				}
+			}
 			continue
 		}
-		if cb.Hidden == 0 && ca.Hidden == 0 {
+		// a column that is regular afterwards is judged whatever it was before: a generated column
+		// that becomes a regular one must hold the values it showed
+		if ca.Hidden == 0 {
+			if cb.Hidden != 0 {
+				st.materialised++
+			}
 			p := pair{bi: bi, ai: ai, name: cb.Name}
 			// Engine rule, not the planner's: a column that becomes the rowid alias (single INTEGER
 			// PRIMARY KEY of a rowid table) cannot hold NULL; SQLite assigns a fresh rowid instead.
@@ -206,6 +237,21 @@ func preserved(in *oracleIn, tb, ta *TableDump, specName string, useGen bool) (v
 func (in *oracleIn) check() (vs []Verdict, stats map[string]int) {
 	stats = map[string]int{}
 	refused := in.applyErr != nil
+	if refused {
+		// NOT NULL over existing NULLs: a column that is nullable now and NOT NULL with a DEFAULT in the
+		// desired state must be migrated (the NULLs take the default); a plan that trips over its own
+		// NOT NULL constraint can never succeed
+		if m := reNotNullFailed.FindStringSubmatch(in.applyErr.Error()); m != nil {
+			tn := strings.TrimPrefix(m[1], "new_")
+			ct, dt := in.cur.table(tn), in.des.table(tn)
+			if ct != nil && dt != nil {
+				cc, dc := ct.col(m[2]), dt.col(m[2])
+				if cc != nil && dc != nil && !cc.NotNull && dc.NotNull && dc.Default != "" && dc.Gen == "" {
+					vs = append(vs, Verdict{"notnull-default-refused", fmt.Sprintf("mode=%s table=%s column %s is nullable with NULLs and NOT NULL DEFAULT %s in the desired state, the plan fails on its own NOT NULL constraint", in.mode, tn, m[2], dc.Default)})
+				}
+			}
+		}
+	}
 	if refused && in.mode.Tx != "none" && in.mode.Tx != "prefix" {
 		if d := equalDump(in.before, in.after); d != "" {
 			vs = append(vs, Verdict{"refused-not-unchanged", fmt.Sprintf("mode=%s %s", in.mode, d)})
@@ -259,6 +305,7 @@ func (in *oracleIn) check() (vs []Verdict, stats map[string]int) {
 		}
 		stats["coalesced-nulls"] += st.coalesced
 		stats["rowid-alias-null-assigned"] += st.aliasNull
+		stats["generated-to-regular-judged"] += st.materialised
 	}
 	return
 }
